@@ -17,6 +17,9 @@ func (x *Exec) call(fr *Frame, st *State, c *ssa.CallCommon, pos token.Pos, inst
 		args = append(args, x.value(fr, a))
 	}
 	fnv := x.value(fr, c.Value)
+	if in, ok := instr.(ssa.Instruction); ok && in != nil {
+		x.curBlock = in.Block()
+	}
 	return x.callWith(fr, st, c, fnv, args, pos, instr)
 }
 
@@ -455,6 +458,21 @@ func (x *Exec) applyContract(fr *Frame, st *State, spec *FuncSpec, key string, n
 				o.Props = append(o.Props, "C11")
 			}
 			x.em.oblige(o)
+		}
+	}
+	// assertions the calling function's contract attaches to this call site
+	if fr.spec != nil && fr.spec.CallSites != nil && fr.isTop {
+		site := fmt.Sprintf("%s@%d", key, occ)
+		if cls := fr.spec.CallSites[site]; cls != nil {
+			x.siteHits[site]++
+			senv := x.newEnv(fr, pre, x.curBlock)
+			for i, a := range args {
+				senv.vars[fmt.Sprintf("arg%d", i)] = a
+			}
+			for _, c := range cls {
+				p, alt := x.evalBoolAlt(senv, c.Expr)
+				x.obligeAlt(fr, pre, fmt.Sprintf("callsite:%s/%s", site, c.Label), "call-site", p, alt, c)
+			}
 		}
 	}
 	// closures passed for parameters that have a callback contract must conform to it
